@@ -1,7 +1,7 @@
 (* C02 - ForceFlush and Shutdown are complete, final, and return (batch processors: under every interleaving, given only that
    the worker keeps being scheduled - Batch/Fair.v; periodic reader and providers: evidenced by the scheduled runs).
    Property theorems only; proofs are in Batch/Proofs*.v and Batch/Theorems.v. *)
-From V Require Import Batch.Model Batch.ProofsA Batch.ProofsB Batch.Theorems Batch.Compose Batch.ComposeProofs Batch.Periodic Batch.PeriodicProofs Batch.Progress Batch.Fair.
+From V Require Import Batch.Model Batch.ProofsA Batch.ProofsB Batch.Theorems Batch.Compose Batch.ComposeProofs Batch.Periodic Batch.PeriodicProofs Batch.PeriodicFair Batch.Progress Batch.Fair.
 From Coq Require Import List Arith.
 Import ListNotations.
 
@@ -96,6 +96,14 @@ Print Assumptions c02_provider_true_implies_children_true.
 Theorem c02_periodic_flush_true_complete : forall s t k, rreachable s -> In (t, k, true) (r_fl_done s) -> rmark s k <= r_covered s.
 Proof. exact periodic_flush_true_complete. Qed.
 Print Assumptions c02_periodic_flush_true_complete.
+
+(* the periodic reader's ForceFlush: its exit condition holds after 34 steps of the worker and its collect thread, plus 16 for
+   every cycle of the continuation whose collection timed out (such a cycle publishes nothing), under every interleaving *)
+Theorem c02_periodic_flush_returns_under_fair_worker : forall s tr s' t,
+  rreachable s -> t <= r_pending s -> rrun s tr = Some s' -> 34 + 16 * timeouts tr <= pprog tr ->
+  t <= r_notified s' \/ r_shut s' = true.
+Proof. exact periodic_flush_returns_under_fair_worker. Qed.
+Print Assumptions c02_periodic_flush_returns_under_fair_worker.
 
 Theorem c02_periodic_ticket_mark : forall s t old s', t <> 0 -> r_coll s = None ->
   raccept s (t, RFaddPending old) = Some s' -> length (r_marks s) = r_pending s ->
